@@ -96,11 +96,42 @@ def run(prop, seed, budget, ctx):
             mops = [["construct", o[1], o[2]] if o[0] == "deserialize" else o for o in ops]
             reqs.append({"id": len(reqs), "op": "fieldsset", "cls": desc, "ops": mops})
             meta.append({"src": lines, "cls": cname, "desc": desc, "ops": ops, "fields": [x for x in order if kinds[x] != "initvar"]})
+    if ctx.get("tier") == "thorough":
+        # bounded-exhaustive: every sequence of at most two updates after every construction / deserialization, on three class shapes
+        import itertools
+        shapes = []
+        for k, body in enumerate((["    a: int = 0", "    b: int = 0"],
+                                  ["    a: int", "    b: int = field(default=1, metadata=default_as_set)", "    c: int = field(default=2, init=False)"],
+                                  ["    a: int = 0", "    d: InitVar[int] = 3", "    def __post_init__(self, d):", "        pass"])):
+            cname = f"FE{k}"; lines = ["@with_fields_set", "@dataclass", f"class {cname}:"] + body
+            shapes.append((cname, lines))
+        emod = build_module(HEADER + [l for _, ls in shapes for l in ls + [""]], f"fse{seed}")
+        descs = [{"params": ["a", "b"], "init_vars": [], "init_vars_default": [], "post_init": []},
+                 {"params": ["a", "b"], "init_vars": [], "init_vars_default": [], "post_init": ["b", "c"]},
+                 {"params": ["a", "d"], "init_vars": ["d"], "init_vars_default": ["d"], "post_init": []}]
+        fieldsets = [["a", "b"], ["a", "b", "c"], ["a"]]
+        for (cname, lines), desc, fields in zip(shapes, descs, fieldsets):
+            req = ["a"] if cname == "FE1" else []
+            optional = [p for p in desc["params"] if p not in req]
+            firsts = []
+            for r in range(len(optional) + 1):
+                for sub in itertools.combinations(optional, r):
+                    firsts.append(["construct", 0, req + list(sub)])
+                    firsts.append(["deserialize", 0, [x for x in req + list(sub) if x not in desc["init_vars"]]])
+            alphabet = [["setattr", "a"], ["setattr", fields[-1]], ["set_fields", ["a"], False], ["set_fields", [fields[-1]], True],
+                        ["unset_fields", ["a"]], ["replace", ["a"]], ["replace", []]]
+            for first in firsts:
+                for n_up in (0, 1, 2):
+                    for ups in itertools.product(alphabet, repeat=n_up):
+                        ops = [first] + [list(u) for u in ups]
+                        mops = [["construct", o[1], o[2]] if o[0] == "deserialize" else o for o in ops]
+                        reqs.append({"id": len(reqs), "op": "fieldsset", "cls": desc, "ops": mops})
+                        meta.append({"src": lines, "cls": cname, "desc": desc, "ops": ops, "fields": fields, "mod": emod})
     ms = model(reqs) if ctx["driver_ok"] else [{} for _ in reqs]
     failures, hist, distinct, samples = [], collections.Counter(), set(), []
     kbad = 0
     for m, c in zip(ms, meta):
-        cls = getattr(mod, c["cls"])
+        cls = getattr(c.pop("mod", mod), c["cls"])
         try: states, ser, ser_all = run_real(cls, c["ops"])
         except Exception as e: states, ser, ser_all = "EXC:" + type(e).__name__ + ":" + str(e)[:80], None, None
         c["real"] = states; c["model"] = m.get("states"); c["serialized_keys"] = ser
